@@ -335,7 +335,42 @@ def F18():
         return "AMinusB of the 'Positive Integer' values [2, 3, 5] - [3, 3, 9] = %r (expected [-1, 0, -4])" % (got,)
 
 
-ALL = ["F1", "F2", "F3", "F4", "F5", "F6", "F7", "F8", "F9", "F11", "F13", "F14", "F15", "F16", "F17", "F18"]
+def F19():
+    from mpilot.program import Program
+    from mpilot.commands import Command
+
+    class AnyProgram(Program):
+        def find_command_class(self, name):
+            return type(str("F19Any"), (Command,), {"allow_extra_inputs": True, "inputs": {}, "__module__": "mpverif_f19"})
+    p = AnyProgram.from_source("A = B(P = [[k: 1, m: x], 2])", libraries=())
+    got = p.commands["A"].arguments[0].value[0]
+    if got != {"k": 1, "m": "x"}:
+        return "the tuple inside the list of `A = B(P = [[k: 1, m: x], 2])` is handed over as %r (expected {'k': 1, 'm': 'x'})" % (got,)
+
+
+def F20():
+    import numpy
+    from netCDF4 import Dataset
+    from mpilot.program import Program, EEMS_NETCDF_LIBRARIES
+    d = tempfile.mkdtemp(prefix="mpv_")
+    try:
+        with Dataset(os.path.join(d, "in.nc"), "w") as ds:
+            ds.createDimension("x", 2)
+            x = ds.createVariable("x", "f8", ("x",)); x[:] = numpy.array([10.0, 20.0])
+            a = ds.createVariable("a", "f8", ("x",)); a[:] = numpy.ma.array([7.5, 1.0], mask=[False, False])
+            b = ds.createVariable("b", "f8", ("x",)); b[:] = numpy.ma.array([-1.0, 2.0], mask=[False, False])
+        src = ('A = EEMSRead(InFileName="in.nc", InFieldName=a)\nB = EEMSRead(InFileName="in.nc", InFieldName=b)\nM = Minimum(InFieldNames=[A, B])\n'
+               'Out = EEMSWrite(OutFileName="out.nc", OutFieldNames=[M, A], DimensionFileName="in.nc", DimensionFieldName=a)\n')
+        p = Program.from_source(src, libraries=EEMS_NETCDF_LIBRARIES, working_dir=d)
+        try:
+            p.run()
+        except Exception as e:
+            return "writing [Minimum(A, B), A] to a NetCDF dataset fails: %s" % str(e).split("\n")[0][:160]
+    finally:
+        shutil.rmtree(d)
+
+
+ALL = ["F1", "F2", "F3", "F4", "F5", "F6", "F7", "F8", "F9", "F11", "F13", "F14", "F15", "F16", "F17", "F18", "F19", "F20"]
 
 if __name__ == "__main__":
     sel = sys.argv[1:] or ALL
